@@ -116,16 +116,60 @@ func isStartTransactionCall(info *types.Info, as *ast.AssignStmt) (*ast.CallExpr
 		return nil, false
 	}
 	fn := calleeOf(info, call)
-	if fn == nil || fn.Name() != "startTransaction" {
+	if fn == nil || (fn.Name() != "startTransaction" && txForwarders[fn] == nil) {
 		return nil, false
 	}
 	return call, true
+}
+
+// txForwarders: functions whose result is that of a startTransaction call (`return
+// x.startTransaction(...)`), possibly after a failed lookup that returns a status without a
+// transaction; calling one starts a transaction just like calling startTransaction itself. The value
+// maps the forwarder's parameter index to the parameter index of startTransaction it is passed as.
+var txForwarders = map[*types.Func]map[int]int{}
+
+func computeTxForwarders(p *Program) {
+	txForwarders = map[*types.Func]map[int]int{}
+	for _, u := range p.UnitsIn(nfsPkg) {
+		if u.Fn.Type().(*types.Signature).Results().Len() != 3 || u.Fn.Name() == "startTransaction" {
+			continue
+		}
+		info := u.Info()
+		ast.Inspect(u.Decl.Body, func(n ast.Node) bool {
+			ret, ok := n.(*ast.ReturnStmt)
+			if !ok || len(ret.Results) != 1 {
+				return true
+			}
+			call, ok := ast.Unparen(ret.Results[0]).(*ast.CallExpr)
+			if !ok {
+				return true
+			}
+			fn := calleeOf(info, call)
+			if fn == nil || fn.Name() != "startTransaction" {
+				return true
+			}
+			m := map[int]int{}
+			sig := u.Fn.Type().(*types.Signature)
+			for ai, a := range call.Args {
+				if id, ok := ast.Unparen(a).(*ast.Ident); ok {
+					for pi := 0; pi < sig.Params().Len(); pi++ {
+						if info.ObjectOf(id) == sig.Params().At(pi) {
+							m[pi] = ai
+						}
+					}
+				}
+			}
+			txForwarders[u.Fn] = m
+			return true
+		})
+	}
 }
 
 func c19TxLinear(c *Ctx) *RuleResult {
 	r := &RuleResult{Rule: "C19.tx-linear", Floor: 9,
 		Doc: "every successful open-owner / lock-owner startTransaction is completed exactly once on every path; on the failure edge (status != NFS4_OK: replay or bad sequence number) nothing with side effects is called before returning: no state-changing function of the package and no call into the virtual file system"}
 	p := c.P
+	computeTxForwarders(p)
 	mut := mutatingFuncs(p)
 	for _, u := range p.UnitsIn(nfsPkg) {
 		info := u.Info()
@@ -303,6 +347,21 @@ func c19StartShape(c *Ctx) *RuleResult {
 				return true
 			}
 			for _, ret := range rejecting {
+				// the status of a helper that rejects before it changes anything: the return that
+				// forwards it is the helper's rejection, not a rejection after the helper's effects
+				if hc, ok := mnode.(*ast.CallExpr); ok {
+					if id, ok := ast.Unparen(ret.Results[2]).(*ast.Ident); ok {
+						forwards := false
+						for _, dc := range definingCalls(u, id) {
+							if dc == hc {
+								forwards = true
+							}
+						}
+						if forwards && rejectsBeforeEffects(p, mut, calleeOf(info, hc)) {
+							continue
+						}
+					}
+				}
 				if reach, _ := g.ReachableWithout(mnode, ret, func(ast.Node) bool { return false }); reach {
 					bad = fmt.Sprintf("%s at %s can be followed by the rejecting return at %s", what, posOf(p, mnode), posOf(p, ret))
 				}
@@ -724,4 +783,49 @@ func init() {
 		Assumptions: []string{"the XDR layer delivers what the program returns"},
 		Rules:       []RuleFunc{c19TxLinear, c19StartShape, c19Together, c19Sequence, c19WakeAll, c19ReplayStateID, c19ClosedStateRetained, c19InitialFlag, c19BadSeqidNotCached, c19PolicyRules},
 	})
+}
+
+// rejectsBeforeEffects: in helper h (returning a status as its last result) no state change can be
+// followed by a return of anything but NFS4_OK.
+func rejectsBeforeEffects(p *Program, mut map[*types.Func]bool, h *types.Func) bool {
+	hu := p.UnitOf(h)
+	if hu == nil || hu.Decl.Recv == nil || len(hu.Decl.Recv.List[0].Names) == 0 {
+		return false
+	}
+	info := hu.Info()
+	recv := hu.Decl.Recv.List[0].Names[0].Name
+	g := NewFuncCFG(info, hu.Decl.Body)
+	var rejecting []*ast.ReturnStmt
+	ast.Inspect(hu.Decl.Body, func(n ast.Node) bool {
+		if ret, ok := n.(*ast.ReturnStmt); ok && len(ret.Results) > 0 && !strings.HasSuffix(exprStr(ret.Results[len(ret.Results)-1]), "NFS4_OK") {
+			rejecting = append(rejecting, ret)
+		}
+		return true
+	})
+	clean := true
+	ast.Inspect(hu.Decl.Body, func(n ast.Node) bool {
+		var mnode ast.Node
+		switch x := n.(type) {
+		case *ast.AssignStmt:
+			for _, l := range x.Lhs {
+				if rootIdent(l) == recv && exprStr(l) != recv {
+					mnode = x
+				}
+			}
+		case *ast.CallExpr:
+			if fn := calleeOf(info, x); fn != nil && mut[fn] {
+				mnode = x
+			}
+		}
+		if mnode == nil {
+			return true
+		}
+		for _, ret := range rejecting {
+			if reach, _ := g.ReachableWithout(mnode, ret, func(ast.Node) bool { return false }); reach {
+				clean = false
+			}
+		}
+		return true
+	})
+	return clean
 }
